@@ -102,7 +102,10 @@ def random_action(cl, rng, w, state):
         return ('Connect',) + rng.choice(sorted(connectable))
     if k == 'Compact':
         iso = getattr(cl, 'script_isolated', None)
-        if iso in ids and rng.random() < state.get('compact_at_isolated', 0.0):
+        bias = w.get('compact_iso', state.get('compact_at_isolated', 0.0))     # per phase (weights) or per run
+        if iso in ids and bias < 0 and len(ids) > 1:
+            return ('Compact', rng.choice([x for x in ids if x != iso]))
+        if iso in ids and rng.random() < bias:
             return ('Compact', iso)
         return ('Compact', rng.choice(ids))
     if k == 'ChildDone':
@@ -500,10 +503,14 @@ def _script(cl, script, rng):
     out = []
     for s in script:
         if s[0] == 'isolate':       # cut every link of node s[1]; both ends notice
-            n = s[1] if s[1] != '?' else rng.choice(sorted(cl.nodes))
+            n = s[1] if s[1] not in ('?', 'follower', 'leader') else rng.choice(sorted(cl.nodes))
             if s[1] == 'leader':    # the current leader (highest term), if any
                 ls = [(sn.obj.raftCurrentTerm, nid) for nid, sn in cl.nodes.items() if sn.alive and sn.obj._isLeader()]
                 n = max(ls)[1] if ls else rng.choice(sorted(cl.nodes))
+            if s[1] == 'follower':  # a running node that is not the leader
+                ls = {nid for nid, sn in cl.nodes.items() if sn.alive and sn.obj._isLeader()}
+                fs = sorted(nid for nid, sn in cl.nodes.items() if sn.alive and nid not in ls)
+                n = rng.choice(fs) if fs else rng.choice(sorted(cl.nodes))
             cl.script_isolated = n
             for m in sorted(cl.nodes):
                 if m != n:
